@@ -200,6 +200,28 @@ PROPS = {
                         'Import, ReadFrom, Equals and GetBitSet are outside the call classes the property lists (update, query, length, merge, export/serialize) and are exempt in the table',
                         'the extractor is syntactic: it answers "not guarded" for shapes it does not understand'],
     },
+
+    'C15': {
+        'lean_modules': ['C15'],
+        'required_theorems': ['C15_bloom_size', 'C15_cms_cols', 'C15_cms_rows', 'C15_cubic_term_exact', 'C15_probes_scheme', 'C15_cuckoo_fpl_counterexample'],
+        'suites': ['sizing'],
+        'level': 'other',
+        'explanation': 'PARTIAL by nature: the claim is statistical and about concrete hash functions. Proved in Lean (Mathlib reals): the sizing formulas give m >= n ln(1/p)/ln^2 2, e/cols <= eps, e^-rows <= delta; the probe sequences are (enhanced) double hashing with an exact cubic term; the cuckoo sizing is refuted (fingerprint length in bytes used as decimal digits, finding D22). '
+                       'Suite `sizing`: every from-error-budget constructor\'s dimensions against the transcribed formulas (exact mode, IEEE double), and a statistical test of observed false-positive / over-estimate frequencies at design load against the budget (slack factor 1.5 + 6 sigma, so an unchanged tree does not alarm) - that part is testing, not proof.',
+        'assumptions': ['uniform-hashing analyses of Bloom filters and Count-Min sketches (cited, not proved)', 'float rounding of the sizing formulas (checked on a grid with a 1e-12 relative tolerance for libm differences)'],
+        'technique': 'Lean 4 theorems about the sizing arithmetic + exact-mode correspondence of constructor dimensions + statistical test (one-sided bound) of the observed error frequencies',
+    },
+    'C16': {
+        'lean_modules': ['C16'],
+        'required_theorems': ['C16_bloom', 'C16_cms', 'C16_hll', 'C16_bloom_not_lost', 'C16_cuckoo_counterexample', 'C16_topk_counterexample'],
+        'suites': ['redisconc'],
+        'level': 'proof',
+        'explanation': 'Lean: at Redis-command granularity a Bloom insert is k single-bit steps and a Count-Min / HyperLogLog update is one script step; these steps commute (and are idempotent for bits), so EVERY interleaving of any number of clients ends in the state of the sequential application in any order. '
+                       'For cuckoo and Top-K the multi-command programs are modelled and an interleaving that loses an acknowledged insert / empties the tracked set is exhibited by `decide` (finding D21). '
+                       'Suite `redisconc`: a go-redis hook (build tag verif) records the command trace of each update (must be SETBITs only / exactly one script) and a seeded scheduler interleaves 2-4 clients command by command (shared and re-attached handles); final state vs sequential application; the two counterexample schedules are replayed on the implementation on every run.',
+        'assumptions': ['Redis executes each command and each Lua script atomically', 'connection-pool ordering and network faults are not modelled',
+                        'goroutines sharing one CountMinSketchRedis handle race on the handle-local allSum field, which no query reads (recorded, not a property violation)'],
+    },
 }
 
 # properties not (yet) claimed: reason shown in MANIFEST.not_applicable
